@@ -263,4 +263,291 @@ theorem insName_sorted (n : String) (l : List String) (h : l.Pairwise sLt) :
         · subst e; exact hyn
         · exact hy z e
 
+/-! ### the de-duplication loop -/
+
+/-- `diagnostic.equal` folds the case of the category, descriptor equality does not; the
+loop is only meaningful when "equal" diagnostics have equal descriptors. -/
+def EqOK (l : List Diag) : Prop := ∀ x ∈ l, ∀ y ∈ l, x.equal y = true → x.desc = y.desc
+
+theorem EqOK.sub {l l' : List Diag} (h : EqOK l) (hs : ∀ x ∈ l', x ∈ l) : EqOK l' :=
+  fun x hx y hy => h x (hs x hx) y (hs y hy)
+
+theorem equal_build {p o : Diag} (h : p.equal o = true) : p.build = o.build := by
+  simp only [Diag.equal, Bool.and_eq_true, decide_eq_true_eq] at h
+  exact h.2
+
+/-- (descriptor, name) pairs present in an observable output -/
+def opair (o : List (Desc × List String)) (k : Desc) (n : String) : Prop :=
+  ∃ ns, (k, ns) ∈ o ∧ n ∈ ns
+
+def okeys (o : List (Desc × List String)) : List Desc := o.map Prod.fst
+
+@[simp] theorem obs_nil : obs [] = [] := rfl
+@[simp] theorem obs_cons (e : Diag) (ns : List String) (R : List (Diag × List String)) :
+    obs ((e, ns) :: R) = (e.desc, ns) :: obs R := rfl
+
+theorem opair_cons (k' : Desc) (ns' : List String) (o : List (Desc × List String)) (k : Desc)
+    (n : String) : opair ((k', ns') :: o) k n ↔ (k = k' ∧ n ∈ ns') ∨ opair o k n := by
+  unfold opair
+  constructor
+  · rintro ⟨ns, hm, hn⟩
+    rcases List.mem_cons.mp hm with e | e
+    · left; simp only [Prod.mk.injEq] at e; exact ⟨e.1, e.2 ▸ hn⟩
+    · right; exact ⟨ns, e, hn⟩
+  · rintro (⟨e, hn⟩ | ⟨ns, hm, hn⟩)
+    · exact ⟨ns', by simp [e], hn⟩
+    · exact ⟨ns, List.mem_cons_of_mem _ hm, hn⟩
+
+/-- the loop neither loses nor invents (descriptor, build) pairs -/
+theorem dedup_pairs (rest : List Diag) : ∀ (cur : Diag) (names : List String),
+    EqOK (cur :: rest) → cur.build ∈ names → ∀ k n,
+    (opair (obs (dedupLoop cur names rest)) k n ↔
+      (k = cur.desc ∧ n ∈ names) ∨ ∃ x ∈ rest, x.desc = k ∧ x.build = n) := by
+  induction rest with
+  | nil =>
+    intro cur names _ _ k n
+    simp [dedupLoop, opair_cons, opair]
+  | cons d ds ih =>
+    intro cur names hok hb k n
+    have hok' : EqOK (cur :: ds) := hok.sub (by
+      intro x hx; rcases List.mem_cons.mp hx with e | e
+      · simp [e]
+      · simp [e])
+    unfold dedupLoop
+    split
+    · rename_i heq
+      have hd : cur.desc = d.desc := hok cur (by simp) d (by simp) heq
+      have hbd : cur.build = d.build := equal_build heq
+      rw [ih cur names hok' hb k n]
+      constructor
+      · rintro (h | ⟨x, hx, h⟩)
+        · exact Or.inl h
+        · exact Or.inr ⟨x, List.mem_cons_of_mem _ hx, h⟩
+      · rintro (h | ⟨x, hx, h⟩)
+        · exact Or.inl h
+        · rcases List.mem_cons.mp hx with e | e
+          · subst e; left; exact ⟨by rw [hd]; exact h.1.symm, by rw [← h.2, ← hbd]; exact hb⟩
+          · exact Or.inr ⟨x, e, h⟩
+    · split
+      · rename_i _ hd
+        rw [ih cur (insName d.build names) hok' ((mem_insName _ _ _).mpr (Or.inr hb)) k n]
+        simp only [mem_insName]
+        constructor
+        · rintro (⟨hk, h | h⟩ | ⟨x, hx, h⟩)
+          · exact Or.inr ⟨d, by simp, by rw [← hd]; exact hk.symm, h.symm⟩
+          · exact Or.inl ⟨hk, h⟩
+          · exact Or.inr ⟨x, List.mem_cons_of_mem _ hx, h⟩
+        · rintro (h | ⟨x, hx, h⟩)
+          · exact Or.inl ⟨h.1, Or.inr h.2⟩
+          · rcases List.mem_cons.mp hx with e | e
+            · subst e; exact Or.inl ⟨by rw [hd]; exact h.1.symm, Or.inl h.2.symm⟩
+            · exact Or.inr ⟨x, e, h⟩
+      · have hokd : EqOK (d :: ds) := hok.sub (by intro x hx; exact List.mem_cons_of_mem _ hx)
+        rw [obs_cons, opair_cons, ih d [d.build] hokd (by simp) k n]
+        constructor
+        · rintro (h | ⟨hk, h⟩ | ⟨x, hx, h⟩)
+          · exact Or.inl h
+          · exact Or.inr ⟨d, by simp, hk.symm, by simpa using h.symm⟩
+          · exact Or.inr ⟨x, List.mem_cons_of_mem _ hx, h⟩
+        · rintro (h | ⟨x, hx, h⟩)
+          · exact Or.inl h
+          · rcases List.mem_cons.mp hx with e | e
+            · subst e; exact Or.inr (Or.inl ⟨h.1.symm, by simp [h.2]⟩)
+            · exact Or.inr (Or.inr ⟨x, e, h⟩)
+
+/-- descriptors of the output lines = descriptors of the input -/
+theorem dedup_keys (rest : List Diag) : ∀ (cur : Diag) (names : List String),
+    EqOK (cur :: rest) → ∀ k,
+    (k ∈ okeys (obs (dedupLoop cur names rest)) ↔ k = cur.desc ∨ ∃ x ∈ rest, x.desc = k) := by
+  induction rest with
+  | nil => intro cur names _ k; simp [dedupLoop, okeys]
+  | cons d ds ih =>
+    intro cur names hok k
+    have hok' : EqOK (cur :: ds) := hok.sub (by
+      intro x hx; rcases List.mem_cons.mp hx with e | e
+      · simp [e]
+      · simp [e])
+    have aux : ∀ (names' : List String), cur.desc = d.desc →
+        (k ∈ okeys (obs (dedupLoop cur names' ds)) ↔ k = cur.desc ∨ ∃ x ∈ d :: ds, x.desc = k) := by
+      intro names' hd
+      rw [ih cur names' hok' k]
+      constructor
+      · rintro (h | ⟨x, hx, h⟩)
+        · exact Or.inl h
+        · exact Or.inr ⟨x, List.mem_cons_of_mem _ hx, h⟩
+      · rintro (h | ⟨x, hx, h⟩)
+        · exact Or.inl h
+        · rcases List.mem_cons.mp hx with e | e
+          · subst e; exact Or.inl (by rw [hd]; exact h.symm)
+          · exact Or.inr ⟨x, e, h⟩
+    unfold dedupLoop
+    split
+    · rename_i heq
+      exact aux names (hok cur (by simp) d (by simp) heq)
+    · split
+      · rename_i _ hd
+        exact aux _ hd
+      · have hokd : EqOK (d :: ds) := hok.sub (by intro x hx; exact List.mem_cons_of_mem _ hx)
+        have := ih d [d.build] hokd k
+        simp only [okeys, obs_cons, List.map_cons, List.mem_cons] at this ⊢
+        rw [this]
+        constructor
+        · rintro (h | h | ⟨x, hx, h⟩)
+          · exact Or.inl h
+          · exact Or.inr ⟨d, Or.inl rfl, h.symm⟩
+          · exact Or.inr ⟨x, Or.inr hx, h⟩
+        · rintro (h | ⟨x, hx | hx, h⟩)
+          · exact Or.inl h
+          · subst hx; exact Or.inr (Or.inl h.symm)
+          · exact Or.inr (Or.inr ⟨x, hx, h⟩)
+
+/-- every output line's name list is strictly increasing (so: duplicate-free, canonical) -/
+theorem dedup_names_sorted (rest : List Diag) : ∀ (cur : Diag) (names : List String),
+    names.Pairwise sLt → ∀ e ∈ obs (dedupLoop cur names rest), e.2.Pairwise sLt := by
+  induction rest with
+  | nil => intro cur names h e he; simp [dedupLoop] at he; subst he; exact h
+  | cons d ds ih =>
+    intro cur names h e he
+    unfold dedupLoop at he
+    split at he
+    · exact ih cur names h e he
+    · split at he
+      · exact ih cur _ (insName_sorted _ _ h) e he
+      · rw [obs_cons] at he
+        rcases List.mem_cons.mp he with e' | e'
+        · subst e'; exact h
+        · exact ih d [d.build] (by simp) e e'
+
+/-- On sorted input the descriptors of the output lines are strictly increasing: no
+problem is printed twice.  This is the statement the pre-fix comparator violated. -/
+theorem dedup_keys_sorted (rest : List Diag) : ∀ (cur : Diag) (names : List String),
+    Sorted (cur :: rest) →
+    (okeys (obs (dedupLoop cur names rest))).Pairwise descLt ∧
+    ∀ k ∈ okeys (obs (dedupLoop cur names rest)), k = cur.desc ∨ descLt cur.desc k := by
+  induction rest with
+  | nil => intro cur names _; simp [dedupLoop, okeys]
+  | cons d ds ih =>
+    intro cur names hs
+    unfold dedupLoop
+    split
+    · exact ih cur names hs.drop2
+    · split
+      · exact ih cur _ hs.drop2
+      · rename_i _ hne
+        have ⟨ihp, ihb⟩ := ih d [d.build] hs.tail
+        have hdc : ¬ kLt d.kk cur.kk := (less_false_iff _ _).mp (hs.head d (by simp))
+        have hlt : descLt cur.desc d.desc := by
+          rcases sto_descLt.tri cur.desc d.desc with t | t | t
+          · exact t
+          · exact absurd t hne
+          · exact absurd (Or.inl t) hdc
+        have hall : ∀ k ∈ okeys (obs (dedupLoop d [d.build] ds)), descLt cur.desc k := by
+          intro k hk
+          rcases ihb k hk with e | e
+          · rw [e]; exact hlt
+          · exact sto_descLt.trans _ _ _ hlt e
+        simp only [okeys, obs_cons, List.map_cons] at *
+        refine ⟨List.pairwise_cons.mpr ⟨hall, ihp⟩, ?_⟩
+        intro k hk
+        rcases List.mem_cons.mp hk with e | e
+        · exact Or.inl e
+        · exact Or.inr (hall k e)
+
+/-! ### canonical forms: strictly sorted lists are determined by their members -/
+
+theorem eq_of_pairwise_of_mem_iff {α : Type} {r : α → α → Prop} (irr : ∀ a, ¬ r a a)
+    (tr : ∀ a b c, r a b → r b c → r a c) :
+    ∀ (l l' : List α), l.Pairwise r → l'.Pairwise r → (∀ x, x ∈ l ↔ x ∈ l') → l = l' := by
+  intro l
+  induction l with
+  | nil =>
+    intro l' _ _ h
+    cases l' with
+    | nil => rfl
+    | cons y ys => exact absurd ((h y).mpr (by simp)) (by simp)
+  | cons x xs ih =>
+    intro l' hl hl' h
+    cases l' with
+    | nil => exact absurd ((h x).mp (by simp)) (by simp)
+    | cons y ys =>
+      have hx := (List.pairwise_cons.mp hl).1
+      have hy := (List.pairwise_cons.mp hl').1
+      have hxy : x = y := by
+        rcases List.mem_cons.mp ((h x).mp (by simp)) with e | e
+        · exact e
+        · rcases List.mem_cons.mp ((h y).mpr (by simp)) with e' | e'
+          · exact e'.symm
+          · exact absurd (tr _ _ _ (hx y e') (hy x e)) (irr x)
+      subst hxy
+      have : xs = ys := by
+        apply ih ys (List.pairwise_cons.mp hl).2 (List.pairwise_cons.mp hl').2
+        intro z
+        constructor
+        · intro hz
+          rcases List.mem_cons.mp ((h z).mp (List.mem_cons_of_mem _ hz)) with e | e
+          · subst e; exact absurd (hx z hz) (irr z)
+          · exact e
+        · intro hz
+          rcases List.mem_cons.mp ((h z).mpr (List.mem_cons_of_mem _ hz)) with e | e
+          · subst e; exact absurd (hy z hz) (irr z)
+          · exact e
+      rw [this]
+
+/-- a well-formed observable output: one line per descriptor (strictly increasing),
+strictly increasing names on every line -/
+structure Canon (o : List (Desc × List String)) : Prop where
+  keys : (okeys o).Pairwise descLt
+  names : ∀ e ∈ o, e.2.Pairwise sLt
+
+theorem canon_unique_entry {o : List (Desc × List String)} (h : (okeys o).Pairwise descLt)
+    {k : Desc} {ns ns' : List String} (h1 : (k, ns) ∈ o) (h2 : (k, ns') ∈ o) : ns = ns' := by
+  induction o with
+  | nil => cases h1
+  | cons e t ih =>
+    simp only [okeys, List.map_cons] at h
+    have hh := (List.pairwise_cons.mp h).1
+    have ht := (List.pairwise_cons.mp h).2
+    have no : ∀ ms, (k, ms) ∈ t → e.1 = k → False := by
+      intro ms hm ek
+      have := hh k (List.mem_map.mpr ⟨(k, ms), hm, rfl⟩)
+      rw [ek] at this
+      exact sto_descLt.irrefl _ this
+    rcases List.mem_cons.mp h1 with e1 | e1 <;> rcases List.mem_cons.mp h2 with e2 | e2
+    · rw [← e1] at e2; simp only [Prod.mk.injEq] at e2; exact e2.2.symm
+    · exact absurd (by rw [← e1]) (no ns' e2)
+    · exact absurd (by rw [← e2]) (no ns e1)
+    · exact ih ht e1 e2
+
+/-- Two well-formed outputs with the same descriptors and the same (descriptor, name)
+pairs are the same list. -/
+theorem canon_ext {o o' : List (Desc × List String)} (c : Canon o) (c' : Canon o')
+    (hk : ∀ k, k ∈ okeys o ↔ k ∈ okeys o') (hp : ∀ k n, opair o k n ↔ opair o' k n) : o = o' := by
+  have key : ∀ (a b : List (Desc × List String)), Canon a → Canon b →
+      (∀ k, k ∈ okeys a → k ∈ okeys b) → (∀ k n, opair a k n ↔ opair b k n) →
+      ∀ e, e ∈ a → e ∈ b := by
+    intro a b ca cb hk hp e he
+    rcases e with ⟨k, ns⟩
+    have : k ∈ okeys b := hk k (List.mem_map.mpr ⟨(k, ns), he, rfl⟩)
+    rcases List.mem_map.mp this with ⟨⟨k', ns'⟩, hm, hk'⟩
+    simp only at hk'
+    subst hk'
+    have : ns = ns' := by
+      apply eq_of_pairwise_of_mem_iff sto_sLt.irrefl sto_sLt.trans _ _ (ca.names _ he) (cb.names _ hm)
+      intro n
+      constructor
+      · intro hn
+        rcases (hp k' n).mp ⟨ns, he, hn⟩ with ⟨ms, hms, hn'⟩
+        rw [canon_unique_entry cb.keys hm hms]; exact hn'
+      · intro hn
+        rcases (hp k' n).mpr ⟨ns', hm, hn⟩ with ⟨ms, hms, hn'⟩
+        rw [canon_unique_entry ca.keys he hms]; exact hn'
+    rw [this]; exact hm
+  apply eq_of_pairwise_of_mem_iff (r := fun p q => descLt p.1 q.1)
+    (fun a => sto_descLt.irrefl _) (fun a b c => sto_descLt.trans _ _ _)
+  · have := c.keys; simp only [okeys, List.pairwise_map] at this; exact this
+  · have := c'.keys; simp only [okeys, List.pairwise_map] at this; exact this
+  · intro e
+    exact ⟨key o o' c c' (fun k => (hk k).mp) hp e,
+           key o' o c' c (fun k => (hk k).mpr) (fun k n => (hp k n).symm) e⟩
+
 end Verif.C12
